@@ -161,6 +161,16 @@ def oracle(case: dict) -> Outcome:
         X, M, flag, it, err = res
         conv = flag == mf.NewtonConvergenceFlag.CONVERGED
         cl.append("newton_converged" if conv else "newton_not_converged")
+        # "whichever method is configured": with the default iteration budget the coupled Newton iteration converges for every input whose
+        # accuracy bound is informative (calibration on the pinned tree: 6000 generated matrices up to kappa 1e12, at most 42 iterations), so
+        # the accuracy claim is asserted regardless of the flag when max_iterations >= 100; with a smaller budget only when it reports convergence
+        bound_n = base_bound + 2 * n * solver["tol"] + 16 * n * u * kappa
+        if not conv and solver["max_it"] >= 100 and bound_n < 0.1 and solver["tol"] >= 100 * u:
+            e = rel_err(X, Xr)
+            out.metric("err_over_bound/newton_unconverged", e / bound_n)
+            if e > bound_n:
+                out.fail("C10.accuracy.newton", "coupled Newton (default iteration budget) did not reach the accuracy bound on a well-conditioned input",
+                         f"n={n} kappa={kappa:.2e} p={p} eps={eps:.3e} err={e:.3e} bound={bound_n:.3e} iterations={it}")
         if conv:
             if not float(err) <= solver["tol"]:
                 out.fail("C10.newton.flag", "CONVERGED reported with error above tolerance", f"err {float(err):.3e} tol {solver['tol']:.1e}")
@@ -209,9 +219,11 @@ def oracle(case: dict) -> Outcome:
         out.metric("higher_residual", resid)
         if resid > rb and 64 * n * u * kappa < 0.1:
             out.fail("C10.higher.residual", "returned higher-order result has an independent residual above the guard", f"resid {resid:.3e} bound {rb:.3e} n={n} kappa={kappa:.2e}")
-    if conv:
-        cl.append("higher_order_converged")
-        bound = base_bound + 2 * n * solver["tol"] + 32 * n * u * kappa * max(1, q)
+    if conv or solver["max_it"] >= 100:
+        # with the default iteration budget a *returned* result (any termination flag) is accurate: calibration on the pinned tree (5000 matrices): err <= 5 n u kappa (float32) resp. ~tolerance (float64)
+        if conv:
+            cl.append("higher_order_converged")
+        bound = base_bound + 2 * n * max(solver["tol"], 1e-7 if dt == torch.float64 else 0.0) + 32 * n * u * kappa * max(1, q)
         e = rel_err(X, Xr)
         if bound < 0.1:
             out.metric("err_over_bound/higher", e / bound)
